@@ -1,7 +1,721 @@
-//! C23 — not implemented yet.
-use vcore::Ctx;
+//! C23 — `veryl migrate` yields valid current-syntax code with the same meaning.
+//!
+//! Inputs: programs of the *previous* grammar (`crates/migrator/veryl.par`).
+//! The only construct of it that the current grammar rejects and a migration
+//! can reach is the mandatory index type of a `for` statement
+//! (`for i: u32 in …`; the other differences are either relaxations — types of
+//! let/var/const became optional — or additions of the current grammar).
+//! A case is a corpus file rewritten into the old syntax: every `for`
+//! statement gets a generated `: ScalarType` annotation, further `for`
+//! statements are planted into statement blocks, comments (line, block,
+//! multi-line, multi-byte) are injected — with emphasis inside and around the
+//! annotation — and everything is re-laid with generated whitespace.
+//! Precondition: the old parser accepts the text.
+//!
+//! The command is run in-process exactly as `cmd_migrate.rs` does (current
+//! parser → `Migrator::migratable` → old parser → `Migrator::migrate` → current
+//! parser → pass 1 → formatter → compare with the input / write).
+//!
+//! Oracle (the property text):
+//!  1. the command succeeds and the current parser accepts what it writes;
+//!  2. the token sequence of the result is the input's with exactly the
+//!     `: ScalarType` of each `for` statement removed (a `,` directly before a
+//!     closing bracket is the formatter's to add or drop — C09's convention);
+//!  3. every comment of the input is in the result, in order (trailing
+//!     blanks per line aside);
+//!  4. a text the current parser accepts is left byte-identical.
 
-pub fn run(_ctx: &Ctx) {
-    println!("INCONCLUSIVE property=C23: check not implemented");
-    std::process::exit(2);
+use crate::pipe::{self, FmtOpts};
+use std::path::Path;
+use vcore::{CaseCfg, Ctx, Draw, Outcome, hash_str, json};
+use vgen::relayout::{self, LayoutOpts, Piece, PieceKind};
+use veryl_analyzer::Analyzer;
+use veryl_formatter::Formatter;
+use veryl_metadata::Metadata;
+use veryl_migrator::Migrator;
+use veryl_migrator::Parser as OldParser;
+use veryl_parser::Parser;
+use veryl_parser::token_collector::TokenCollector;
+use veryl_parser::veryl_grammar_trait as g;
+use veryl_parser::veryl_token::TokenSource;
+use veryl_parser::veryl_walker::VerylWalker;
+
+// ---------------------------------------------------------------------------
+// the command
+// ---------------------------------------------------------------------------
+
+#[derive(Debug)]
+pub enum Migrated {
+    /// the current parser accepts the input and nothing asks for a migration:
+    /// the file is not touched
+    Untouched,
+    /// the command stops with the old parser's error
+    OldParserRejects(String),
+    /// the command stops because the current parser rejects the migrator's text
+    MigratedTextRejected { raw: String, error: String },
+    /// what the command leaves in the file (== input when nothing is written)
+    Written { raw: String, out: String },
+}
+
+/// `veryl migrate FILE` on one text, as `CmdMigrate::exec`.  Call on a fresh thread.
+pub fn migrate_like_cli(input: &str, md: &Metadata) -> Migrated {
+    let path = Path::new("a.veryl");
+    let migrate = match Parser::parse(input, &path) {
+        Ok(p) => Migrator::migratable(&p.veryl),
+        Err(_) => true,
+    };
+    if !migrate {
+        return Migrated::Untouched;
+    }
+    let old = match OldParser::parse(input, &path) {
+        Ok(p) => p,
+        Err(e) => return Migrated::OldParserRejects(e.to_string()),
+    };
+    let mut migrator = Migrator::new(md);
+    migrator.migrate(&old.veryl, input);
+    let raw = migrator.as_str().to_string();
+    let parser = match Parser::parse(&raw, &path) {
+        Ok(p) => p,
+        Err(e) => {
+            return Migrated::MigratedTextRejected {
+                raw,
+                error: e.to_string(),
+            };
+        }
+    };
+    let analyzer = Analyzer::new(md);
+    let _ = analyzer.analyze_pass1(&md.project.name, &parser.veryl);
+    let mut formatter = Formatter::new(md);
+    formatter.format(&parser.veryl, &raw);
+    let out = formatter.as_str().to_string();
+    analyzer.clear();
+    // `pass = input == formatted`; otherwise the file is overwritten with it
+    Migrated::Written { raw, out }
+}
+
+// ---------------------------------------------------------------------------
+// rewriting a current-syntax text into the previous syntax
+// ---------------------------------------------------------------------------
+
+/// Where the `for` statements and the statement blocks of a text are
+/// (byte offsets of the loop variable / of the opening brace).
+#[derive(Default)]
+struct Sites {
+    for_idents: Vec<usize>,
+    block_braces: Vec<usize>,
+}
+
+impl VerylWalker for Sites {
+    fn for_statement(&mut self, arg: &g::ForStatement) {
+        self.for_idents.push(arg.identifier.identifier_token.token.pos as usize);
+        // default traversal of the children
+        self.statement_block(&arg.statement_block);
+    }
+    fn statement_block(&mut self, arg: &g::StatementBlock) {
+        self.block_braces.push(arg.l_brace.l_brace_token.token.pos as usize);
+        for x in &arg.statement_block_list {
+            self.statement_block_group(&x.statement_block_group);
+        }
+    }
+}
+
+fn lex_gap(gap: &str, out: &mut Vec<(Piece, Option<usize>)>) {
+    let b = gap.as_bytes();
+    let mut i = 0;
+    while i < b.len() {
+        let c = b[i];
+        if c.is_ascii_whitespace() {
+            i += 1;
+        } else if c == b'/' && i + 1 < b.len() && b[i + 1] == b'/' {
+            let mut j = i;
+            while j < b.len() && b[j] != b'\n' && b[j] != b'\r' {
+                j += 1;
+            }
+            out.push((
+                Piece {
+                    text: gap[i..j].trim_end().to_string(),
+                    kind: PieceKind::LineComment,
+                },
+                None,
+            ));
+            i = j;
+        } else if c == b'/' && i + 1 < b.len() && b[i + 1] == b'*' {
+            let end = gap[i + 2..].find("*/").map(|k| i + 2 + k + 2).unwrap_or(b.len());
+            out.push((
+                Piece {
+                    text: gap[i..end].to_string(),
+                    kind: PieceKind::BlockComment,
+                },
+                None,
+            ));
+            i = end;
+        } else {
+            // a token the default walker does not visit
+            let mut j = i;
+            while j < b.len() && !b[j].is_ascii_whitespace() {
+                if b[j] == b'/' && j + 1 < b.len() && (b[j + 1] == b'/' || b[j + 1] == b'*') {
+                    break;
+                }
+                j += 1;
+            }
+            if j == i {
+                j = i + 1;
+            }
+            while !gap.is_char_boundary(j) {
+                j += 1;
+            }
+            out.push((
+                Piece {
+                    text: gap[i..j].to_string(),
+                    kind: PieceKind::Token,
+                },
+                None,
+            ));
+            i = j;
+        }
+    }
+}
+
+/// `vgen::relayout::pieces` with the byte offset of every parser token kept,
+/// plus the for-statement / statement-block sites of the text.
+fn pieces_with_sites(src: &str) -> Option<(Vec<(Piece, Option<usize>)>, Sites)> {
+    let parser = Parser::parse(src, &Path::new("c23-base.veryl")).ok()?;
+    let mut col = TokenCollector::new(false);
+    col.veryl(&parser.veryl);
+    let mut sites = Sites::default();
+    sites.veryl(&parser.veryl);
+    let mut toks: Vec<(usize, usize)> = col
+        .tokens
+        .iter()
+        .filter(|t| matches!(t.source, TokenSource::File { .. }) && t.length > 0)
+        .map(|t| (t.pos as usize, t.length as usize))
+        .collect();
+    toks.sort();
+    toks.dedup();
+    let mut out = Vec::new();
+    let mut prev_end = 0usize;
+    let mut in_embed = false;
+    let mut embed_start = 0usize;
+    for (pos, len) in toks {
+        if pos < prev_end || pos + len > src.len() + 1 {
+            return None;
+        }
+        let end = (pos + len).min(src.len());
+        let text = &src[pos..end];
+        if in_embed {
+            if text == "}}}" {
+                out.push((
+                    Piece {
+                        text: src[embed_start..pos].to_string(),
+                        kind: PieceKind::Verbatim,
+                    },
+                    None,
+                ));
+                out.push((
+                    Piece {
+                        text: text.to_string(),
+                        kind: PieceKind::Token,
+                    },
+                    Some(pos),
+                ));
+                in_embed = false;
+            }
+            prev_end = end;
+            continue;
+        }
+        lex_gap(&src[prev_end..pos], &mut out);
+        out.push((
+            Piece {
+                text: text.to_string(),
+                kind: PieceKind::Token,
+            },
+            Some(pos),
+        ));
+        if text == "{{{" {
+            in_embed = true;
+            embed_start = end;
+        }
+        prev_end = end;
+    }
+    if in_embed {
+        return None;
+    }
+    lex_gap(&src[prev_end.min(src.len())..], &mut out);
+    Some((out, sites))
+}
+
+fn tok(s: &str) -> Piece {
+    Piece {
+        text: s.to_string(),
+        kind: PieceKind::Token,
+    }
+}
+
+/// A generated `ScalarType` (token texts), simplest first.
+fn gen_scalar_type(d: &mut Draw) -> Vec<&'static str> {
+    const FIXED: &[&str] = &["u32", "i32", "u64", "i64", "u8", "u16", "i8", "i16", "f32", "f64", "bbool", "lbool", "p32", "string"];
+    let mut v: Vec<&'static str> = Vec::new();
+    match d.weighted(&[6, 3, 2, 2, 1]) {
+        0 => v.push(*d.pick(FIXED)),
+        1 => {
+            // variable type with an optional width
+            if d.chance(1, 3) {
+                v.push(*d.pick(&["signed", "tri"]));
+            }
+            v.push(*d.pick(&["logic", "bit"]));
+            if d.chance(2, 3) {
+                v.extend(match d.below(4) {
+                    0 => vec!["<", "8", ">"],
+                    1 => vec!["<", "4", ",", "2", ">"],
+                    2 => vec!["<", "W", "+", "1", ">"],
+                    _ => vec!["<", "$clog2", "(", "N", ")", ">"],
+                });
+            }
+        }
+        2 => {
+            // user defined type
+            v.extend(match d.below(4) {
+                0 => vec!["T"],
+                1 => vec!["PkgA", "::", "T"],
+                2 => vec!["T", "<", "2", ">"],
+                _ => vec!["PkgA", "::<", "3", ">", "::", "T"],
+            });
+        }
+        3 => {
+            v.push("signed");
+            v.push(*d.pick(&["u32", "i32"]));
+        }
+        _ => {
+            v.push(*d.pick(&["clock", "reset", "clock_posedge", "reset_async_low"]));
+        }
+    }
+    v
+}
+
+pub struct OldCase {
+    pub text: String,
+    pub expect_tokens: Vec<String>,
+    pub expect_comments: Vec<String>,
+    pub annotations: usize,
+    pub planted: usize,
+    pub comment_inside_annotation: bool,
+    /// an annotated `for` shares a line with a comment or multi-byte text
+    pub for_line_has_comment_or_multibyte: bool,
+}
+
+fn maybe_comment(d: &mut Draw, num: u32, den: u32, multibyte: bool, out: &mut Vec<(Piece, bool)>) -> bool {
+    if d.chance(num, den) {
+        let c = relayout::gen_comment(d, multibyte);
+        out.push((c, false));
+        true
+    } else {
+        false
+    }
+}
+
+/// Rewrite `base` (current syntax) into the previous syntax.  The bool of each
+/// piece says "belongs to a `: ScalarType` annotation" (expected to vanish).
+fn gen_old_case(d: &mut Draw, base: &str) -> Option<OldCase> {
+    let (pieces, sites) = pieces_with_sites(base)?;
+    let mut lo = LayoutOpts::draw(d);
+    // comments are placed here (their order must be known), not by relayout()
+    let inject = std::mem::replace(&mut lo.inject_per_mille, 0);
+    let leading = std::mem::replace(&mut lo.leading_comment, false);
+    let keep = std::mem::replace(&mut lo.keep_comments, true);
+    if d.chance(1, 2) {
+        lo.multibyte = true;
+    }
+    let annotate = !d.chance(1, 10); // sometimes leave the text in the current syntax
+    let plant_per_mille = *d.pick(&[0u32, 300, 1000]);
+    let around = *d.pick(&[(1u32, 3u32), (0, 1), (1, 1), (1, 8)]);
+    let mut seq: Vec<(Piece, bool)> = Vec::new();
+    if leading {
+        seq.push((relayout::gen_comment(d, lo.multibyte), false));
+    }
+    let mut annotations = 0;
+    let mut planted = 0;
+    let mut inside = false;
+    let annotation = |d: &mut Draw, seq: &mut Vec<(Piece, bool)>, inside: &mut bool| {
+        // [c] : [c] Type… [c]   — a comment after the loop variable belongs
+        // to it; the ones after `:` and after the type sit inside the annotation
+        maybe_comment(d, around.0, around.1.max(1), lo.multibyte, seq);
+        seq.push((tok(":"), true));
+        *inside |= maybe_comment(d, around.0, around.1.max(1), lo.multibyte, seq);
+        let ty = gen_scalar_type(d);
+        let n = ty.len();
+        for (k, t) in ty.into_iter().enumerate() {
+            seq.push((tok(t), true));
+            if k + 1 < n {
+                *inside |= maybe_comment(d, 1, 12, lo.multibyte, seq);
+            }
+        }
+        *inside |= maybe_comment(d, around.0, around.1.max(1), lo.multibyte, seq);
+    };
+    for (p, pos) in &pieces {
+        match p.kind {
+            PieceKind::LineComment | PieceKind::BlockComment if !keep => continue,
+            _ => {}
+        }
+        seq.push((p.clone(), false));
+        if p.kind != PieceKind::Token {
+            continue;
+        }
+        let Some(pos) = pos else { continue };
+        if annotate && sites.for_idents.contains(pos) {
+            annotation(d, &mut seq, &mut inside);
+            annotations += 1;
+        } else if annotate && plant_per_mille > 0 && sites.block_braces.contains(pos) && d.below(1000) < plant_per_mille {
+            // plant `for v: T in [rev] a..b [step += c] { }` at the head of a statement block
+            seq.push((tok("for"), false));
+            maybe_comment(d, 1, 8, lo.multibyte, &mut seq);
+            seq.push((tok(*d.pick(&["i", "idx", "_k", "loop_var"])), false));
+            annotation(d, &mut seq, &mut inside);
+            seq.push((tok("in"), false));
+            if d.chance(1, 4) {
+                seq.push((tok("rev"), false));
+            }
+            seq.push((tok(*d.pick(&["0", "1", "N"])), false));
+            if !d.chance(1, 6) {
+                seq.push((tok(*d.pick(&["..", "..="])), false));
+                seq.push((tok(*d.pick(&["4", "10", "N", "32'd8"])), false));
+            }
+            if d.chance(1, 4) {
+                seq.push((tok("step"), false));
+                seq.push((tok(*d.pick(&["+=", "*="])), false));
+                seq.push((tok("2"), false));
+            }
+            seq.push((tok("{"), false));
+            maybe_comment(d, 1, 6, lo.multibyte, &mut seq);
+            seq.push((tok("}"), false));
+            annotations += 1;
+            planted += 1;
+        } else if inject > 0 && d.below(1000) < inject && p.text != "{{{" {
+            seq.push((relayout::gen_comment(d, lo.multibyte), false));
+        }
+    }
+    let plain: Vec<Piece> = seq.iter().map(|(p, _)| p.clone()).collect();
+    let text = relayout::relayout(d, &plain, &lo);
+    let expect_tokens = seq
+        .iter()
+        .filter(|(p, ann)| !*ann && matches!(p.kind, PieceKind::Token | PieceKind::Verbatim))
+        .map(|(p, _)| p.text.clone())
+        .collect();
+    let expect_comments = seq
+        .iter()
+        .filter(|(p, _)| matches!(p.kind, PieceKind::LineComment | PieceKind::BlockComment))
+        .map(|(p, _)| norm_comment(&p.text))
+        .collect();
+    // NT witness: a line holding `for` … `:` with a comment or multi-byte text
+    let for_line = text.lines().any(|l| {
+        let has_for = l.split(|c: char| !(c.is_alphanumeric() || c == '_')).any(|w| w == "for");
+        has_for && l.contains(':') && (l.contains("//") || l.contains("/*") || l.contains("*/") || !l.is_ascii())
+    });
+    Some(OldCase {
+        text,
+        expect_tokens,
+        expect_comments,
+        annotations,
+        planted,
+        comment_inside_annotation: inside,
+        for_line_has_comment_or_multibyte: for_line && annotations > 0,
+    })
+}
+
+// ---------------------------------------------------------------------------
+// the oracle
+// ---------------------------------------------------------------------------
+
+fn norm_comment(s: &str) -> String {
+    s.trim_end().lines().map(|l| l.trim_end()).collect::<Vec<_>>().join("\n")
+}
+
+/// drop a `,` directly before a closing bracket (optional trailing separator)
+fn norm_tokens(toks: &[String]) -> Vec<String> {
+    let mut out = Vec::with_capacity(toks.len());
+    for (i, t) in toks.iter().enumerate() {
+        if t == ","
+            && let Some(n) = toks.get(i + 1)
+            && matches!(n.as_str(), "}" | ")" | "]" | ">" | ">>" | ">>>")
+        {
+            continue;
+        }
+        out.push(t.clone());
+    }
+    out
+}
+
+fn first_mismatch(a: &[String], b: &[String]) -> (usize, String) {
+    for i in 0..a.len().max(b.len()) {
+        if a.get(i) != b.get(i) {
+            let lo = i.saturating_sub(3);
+            return (
+                i,
+                format!(
+                    "index {i}: expected {:?} vs result {:?}",
+                    &a[lo.min(a.len())..(i + 3).min(a.len())],
+                    &b[lo.min(b.len())..(i + 3).min(b.len())]
+                ),
+            );
+        }
+    }
+    (0, "equal".into())
+}
+
+fn clip(s: &str, n: usize) -> String {
+    let mut e = n.min(s.len());
+    while !s.is_char_boundary(e) {
+        e -= 1;
+    }
+    s[..e].to_string()
+}
+
+/// Decide one old-syntax text against the tokens / comments its result must have.
+pub fn decide(case: &OldCase, o: &FmtOpts, origin: &str, mut classes: Vec<String>) -> Outcome {
+    let md = pipe::metadata(o);
+    let x = &case.text;
+    // precondition: the previous grammar accepts x (own thread: the old
+    // parser shares the current parser's thread-local tables)
+    let old_ok = pipe::on_fresh_thread(|| OldParser::parse(x, &Path::new("a.veryl")).is_ok());
+    if !old_ok {
+        return Outcome::skip("the previous grammar rejects the text (uses syntax added since, or a planted loop does not fit)");
+    }
+    let new_ok = pipe::on_fresh_thread(|| Parser::parse(x, &Path::new("a.veryl")).is_ok());
+    let res = pipe::on_fresh_thread(|| migrate_like_cli(x, &md));
+    let input = |raw: Option<&str>, out: Option<&str>| json!({"origin": origin, "format": o.describe(), "old_text": x, "migrator_text": raw, "written": out});
+    if new_ok {
+        // clause 4
+        classes.push("already_current_syntax".into());
+        return match res {
+            Migrated::Untouched => Outcome::pass(hash_str(x), false, classes, format!("// {origin} (already current syntax)\n{}", clip(x, 1200))),
+            Migrated::Written { raw, out } if out == *x => {
+                let _ = raw;
+                Outcome::pass(hash_str(x), false, classes, format!("// {origin} (already current syntax)\n{}", clip(x, 1200)))
+            }
+            Migrated::Written { raw, out } => Outcome::fail(
+                "current-syntax-text-changed",
+                format!("[{}] from {origin}: the current parser accepts the text, but `veryl migrate` rewrites it", o.describe()),
+                input(Some(&raw), Some(&out)),
+            ),
+            Migrated::OldParserRejects(e) | Migrated::MigratedTextRejected { error: e, .. } => Outcome::fail(
+                "current-syntax-text-fails",
+                format!("[{}] from {origin}: the current parser accepts the text, but `veryl migrate` fails: {}", o.describe(), clip(&e, 200)),
+                input(None, None),
+            ),
+        };
+    }
+    let (raw, out) = match res {
+        Migrated::Untouched => unreachable!("the current parser rejected the text"),
+        Migrated::OldParserRejects(_) => return Outcome::skip("old parser verdict changed between threads"),
+        Migrated::MigratedTextRejected { raw, error } => {
+            // root cause: which tokens did the migrator's spacing fuse / lose?
+            let sig = classify_raw(x, &raw);
+            return Outcome::fail(
+                format!("migrated-text-does-not-parse:{sig}"),
+                format!(
+                    "[{}] from {origin}: the previous grammar accepts the text, but the current parser rejects what the migrator produces ({}): {}",
+                    o.describe(),
+                    sig,
+                    clip(&error.replace('\n', " "), 300)
+                ),
+                input(Some(&raw), None),
+            );
+        }
+        Migrated::Written { raw, out } => (raw, out),
+    };
+    // clause 1 on the written text; the tokens and comments of it
+    let Some(pf) = pipe::on_fresh_thread(|| relayout::pieces(&out)) else {
+        return Outcome::fail(
+            "written-text-does-not-parse",
+            format!("[{}] from {origin}: the current parser rejects the text `veryl migrate` writes", o.describe()),
+            input(Some(&raw), Some(&out)),
+        );
+    };
+    let got_tokens: Vec<String> = pf
+        .iter()
+        .filter(|p| matches!(p.kind, PieceKind::Token | PieceKind::Verbatim))
+        .map(|p| p.text.clone())
+        .collect();
+    let got_comments: Vec<String> = pf
+        .iter()
+        .filter(|p| matches!(p.kind, PieceKind::LineComment | PieceKind::BlockComment))
+        .map(|p| norm_comment(&p.text))
+        .collect();
+    let (et, gt) = (norm_tokens(&case.expect_tokens), norm_tokens(&got_tokens));
+    if et != gt {
+        let (_, at) = first_mismatch(&et, &gt);
+        let sig = if gt.len() > et.len() {
+            "token-sequence:extra-tokens"
+        } else if gt.len() < et.len() {
+            "token-sequence:tokens-lost"
+        } else {
+            "token-sequence:tokens-changed"
+        };
+        return Outcome::fail(
+            sig,
+            format!("[{}] from {origin}: result tokens are not the input's minus the for-loop annotations: {at}", o.describe()),
+            input(Some(&raw), Some(&out)),
+        );
+    }
+    if case.expect_comments != got_comments {
+        let (i, at) = first_mismatch(&case.expect_comments, &got_comments);
+        // is the first missing comment one that sat inside a removed annotation?
+        let missing = case.expect_comments.get(i).cloned().unwrap_or_default();
+        let sig = if got_comments.len() < case.expect_comments.len() {
+            if comment_is_inside_annotation(x, &missing) {
+                "comment-lost:inside-removed-annotation"
+            } else {
+                "comment-lost:elsewhere"
+            }
+        } else if got_comments.len() > case.expect_comments.len() {
+            "comment-duplicated"
+        } else {
+            "comment-changed"
+        };
+        return Outcome::fail(
+            sig,
+            format!("[{}] from {origin}: comments are not kept in order: {at}", o.describe()),
+            input(Some(&raw), Some(&out)),
+        );
+    }
+    if case.comment_inside_annotation {
+        classes.push("comment_inside_annotation".into());
+    }
+    if case.planted > 0 {
+        classes.push("planted_for".into());
+    }
+    if case.annotations > case.planted {
+        classes.push("corpus_for_annotated".into());
+    }
+    if !x.is_ascii() {
+        classes.push("multibyte".into());
+    }
+    if x.contains("\r\n") {
+        classes.push("crlf".into());
+    }
+    if case.for_line_has_comment_or_multibyte {
+        classes.push("for_line_with_comment_or_multibyte".into());
+    }
+    classes.push(format!("annotations:{}", match case.annotations { 0 => "0", 1 => "1", 2..=4 => "2-4", _ => "5+" }));
+    Outcome::pass(
+        hash_str(&format!("{}|{}", o.describe(), x)),
+        case.annotations > 0 && case.for_line_has_comment_or_multibyte,
+        classes,
+        format!("// {origin} [{}] annotations={}\n{}", o.describe(), case.annotations, clip(x, 1500)),
+    )
+}
+
+/// Does `comment` (normalised) occur in `x` between the `:` of a for-loop
+/// annotation and the `in` that follows it?  Textual heuristic used only to
+/// name the root cause of a failure that is already established.
+fn comment_is_inside_annotation(x: &str, comment: &str) -> bool {
+    let first_line = comment.lines().next().unwrap_or("");
+    if first_line.is_empty() {
+        return false;
+    }
+    let mut from = 0;
+    while let Some(p) = x[from..].find(first_line) {
+        let at = from + p;
+        // look backwards for `for <ident> … :` without a `{`, `;` or `in` word in between
+        let before = &x[..at];
+        if let Some(f) = before.rfind("for") {
+            let between = strip_comments(&before[f + 3..]);
+            let has_colon = between.contains(':');
+            let closed = between.contains('{') || between.contains(';') || between.split_whitespace().any(|w| w == "in");
+            if has_colon && !closed {
+                return true;
+            }
+        }
+        from = at + first_line.len();
+    }
+    false
+}
+
+fn strip_comments(s: &str) -> String {
+    let b = s.as_bytes();
+    let mut out = String::new();
+    let mut i = 0;
+    while i < b.len() {
+        if b[i] == b'/' && i + 1 < b.len() && b[i + 1] == b'/' {
+            while i < b.len() && b[i] != b'\n' {
+                i += 1;
+            }
+        } else if b[i] == b'/' && i + 1 < b.len() && b[i + 1] == b'*' {
+            i += 2;
+            while i + 1 < b.len() && !(b[i] == b'*' && b[i + 1] == b'/') {
+                i += 1;
+            }
+            i = (i + 2).min(b.len());
+            out.push(' ');
+        } else {
+            let mut j = i + 1;
+            while !s.is_char_boundary(j) {
+                j += 1;
+            }
+            out.push_str(&s[i..j]);
+            i = j;
+        }
+    }
+    out
+}
+
+/// Root-cause class of a migrator text the current parser rejects, from the
+/// two texts alone: the migrator rebuilds the spacing from token columns
+/// (counted in characters) while advancing its own column by bytes, so after
+/// multi-byte text on a line the blanks between later tokens are swallowed.
+fn classify_raw(x: &str, raw: &str) -> &'static str {
+    let fused_after_multibyte = raw.lines().any(|l| !l.is_ascii());
+    if !x.is_ascii() && fused_after_multibyte {
+        "multibyte-text-on-a-line"
+    } else {
+        "ascii-text"
+    }
+}
+
+// ---------------------------------------------------------------------------
+
+pub fn run(ctx: &Ctx) {
+    let corpus = pipe::load_corpus();
+
+    // sub: explicit old-syntax texts (reproducers of listed findings)
+    ctx.run_payloads("text", |p| {
+        let text = p.get("old_text").and_then(|t| t.as_str()).unwrap_or("").to_string();
+        let expect_tokens: Vec<String> = p
+            .get("expect_tokens")
+            .and_then(|t| t.as_array())
+            .map(|a| a.iter().map(|x| x.as_str().unwrap_or("").to_string()).collect())
+            .unwrap_or_default();
+        let expect_comments: Vec<String> = p
+            .get("expect_comments")
+            .and_then(|t| t.as_array())
+            .map(|a| a.iter().map(|x| x.as_str().unwrap_or("").to_string()).collect())
+            .unwrap_or_default();
+        let case = OldCase {
+            text,
+            expect_tokens,
+            expect_comments,
+            annotations: 1,
+            planted: 0,
+            comment_inside_annotation: false,
+            for_line_has_comment_or_multibyte: true,
+        };
+        decide(&case, &FmtOpts::default(), "explicit", vec!["explicit".into()])
+    });
+
+    let n = ctx.scale(3000, 100_000);
+    ctx.run("rewrite", CaseCfg::cases(n).choices(12_000).stack_mb(16), |d| {
+        let (name, src) = &corpus[d.below_usize(corpus.len())];
+        let o = FmtOpts::draw(d);
+        let Some(case) = gen_old_case(d, src) else {
+            return Outcome::skip("corpus file does not tokenise");
+        };
+        decide(&case, &o, name, vec![])
+    });
+
+    ctx.assume("the in-process pipeline is the one of crates/veryl/src/cmd_migrate.rs (current parser, Migrator::migratable, old parser, Migrator::migrate, current parser, pass 1, formatter, write if different)");
+    ctx.assume("token sequences of the result are taken with the current parser's token positions plus the text between them; a `,` directly before a closing bracket is the formatter's (C09)");
+    ctx.assume("identifiers that became keywords since the previous grammar (`mixin`) cannot occur: the inputs are rewritten from current-syntax files");
+    ctx.finish(
+        "exploration",
+        "corpus files rewritten into the previous syntax: every for statement gets a generated `: ScalarType`, further for statements are planted into statement blocks, comments (line/block/multi-line/multi-byte) are injected inside and around the annotation and elsewhere, everything re-laid with generated whitespace/CRLF x generated [format] settings; precondition: the old parser accepts; non-trivial = >=1 annotated for and an annotated for shares its line with a comment or multi-byte text; distinct by (settings, text) hash",
+    );
 }
